@@ -197,6 +197,7 @@ macro_rules! drain_harness {
                 t.process_gray(&mut batch);
                 if let GcState::Sweeping { .. } = t.gc_state {
                     assert!(header(obj).visited, "sweeping starts only when every root-referenced object is marked");
+                    assert!(t.gray_stack.is_empty(), "no gray object is left when sweeping starts (its children would not be traced)");
                 }
                 if c == 0 {
                     assert!(header(obj).visited || t.gc_state == GcState::Marking, "a white root is either marked now or marking continues");
@@ -211,6 +212,35 @@ drain_harness!(c06_no_sweep_while_stack_root_is_white, 0, 0);
 drain_harness!(c06_no_sweep_while_operand1_is_white, 0, 1);
 drain_harness!(c06_no_sweep_while_operand2_is_white, 0, 2);
 drain_harness!(c06_sweep_starts_when_roots_are_black, 2, 0);
+// a root found white by the rescan has children: they must be traced before anything is swept
+vm_harness! {
+    #[kani::unwind(6)]
+    fn c06_rescanned_root_is_traced_before_sweep() {
+        let mut t = mk_thread(vec![Instr::Stop], vec![], vec![]);
+        let child = mk_string(&mut t, [b'c', 0, 0], 1);
+        let mut d = Vec::with_capacity(2);
+        d.push(child);
+        let root = Value::from(ArrayObject::new(d, &mut t));
+        t.gc_state = GcState::Marking;
+        paint(&mut t, child, 0);
+        paint(&mut t, root, 0);
+        t.value_stack.push(root); // e.g. popped from an array after the roots were scanned
+        // two collector increments with a generous budget each
+        let mut batch: usize = 1 << 20;
+        t.process_gray(&mut batch);
+        if let GcState::Sweeping { .. } = t.gc_state {
+            assert!(header(root).visited && header(child).visited, "everything reachable from a rescanned root is marked before sweeping");
+        }
+        let mut batch: usize = 1 << 20;
+        t.process_gray(&mut batch);
+        if let GcState::Sweeping { .. } = t.gc_state {
+            assert!(header(root).visited && header(child).visited, "everything reachable from a rescanned root is marked before sweeping");
+            assert!(t.gray_stack.is_empty());
+        }
+        kani::cover!(matches!(t.gc_state, GcState::Sweeping { .. }), "req: sweeping is reached after the second increment");
+        std::mem::forget(t);
+    }
+}
 
 // ---- G5: one sweep iteration ----
 vm_harness! {
